@@ -185,6 +185,8 @@ def op_strategy(draw):
         op["to"] = draw(st.sampled_from(["", "A", "B"]))
     elif name in ("set_iter", "get_results", "result_iter", "continue"):
         op["i"] = draw(st.integers(0, 7))
+        # how the iteration is addressed: its index, the same iteration counted from the end, or the last one (the default, -1)
+        op["addr"] = draw(st.sampled_from(["index", "index", "from_end", "last"]))
     elif name == "replace_mesh":
         op["recipe"] = draw(gm.recipes2d(types=SMALL, affine_ok=False, perm_ok=False, hmin=7, hmax=9, nmax=4))
     return op
@@ -213,8 +215,15 @@ def histories(draw, kinds=KINDS):
         ops = [dict(op="solve", lam=0.5), dict(op="save"), dict(op="replace_mesh", recipe=rec2), dict(op="solve", lam=0.75), dict(op="save"),
                dict(op="set_iter", i=0), dict(op="replace_mesh", recipe=rec3), dict(op="solve", lam=1.0), dict(op="save"),
                dict(op="set_iter", i=1), dict(op="set_iter", i=2), dict(op="set_iter", i=0), dict(op="get_results", i=2)]
+    elif draw(st.integers(0, 4)) == 0:
+        # scenario: a monitoring loop that looks at the iteration it has just stored as "the last one", in memory or on disk
+        how = draw(st.sampled_from(["get_results", "result_iter", "set_iter"]))
+        ops = [dict(op="folder", to=draw(st.sampled_from(["A", "A", ""])))]
+        for k in range(draw(st.integers(2, 4))):
+            ops += [dict(op="solve", lam=0.25 * (k + 1)), dict(op="save"), dict(op=how, i=0, addr="last")]
     ops += draw(st.lists(op_strategy(), min_size=3, max_size=12))
     case["ops"] = ops
+    case["audit"] = draw(st.sampled_from(["each", "end"]))
     if kind == "beam":
         case["member"] = draw(gb.member_specs(dims=(2,), types=("SEG2", "SEG3")))
     if kind == "elastic_dyn":
@@ -299,8 +308,14 @@ def run_history(case, rec):
                 if not snaps:
                     continue
                 i = op["i"] % len(snaps)
+                addr = op.get("addr", "index")
+                if addr == "last":
+                    i = len(snaps) - 1
                 S = snaps[i]
                 old = i < len(snaps) - 1 and events_since_save > 0
+                if addr != "index":
+                    i = -1 if addr == "last" else i - len(snaps)  # what the API receives
+                    rec.label("addr:" + addr)
                 if name == "get_results":
                     before = ad.fields(simu)
                     mesh_before = _mesh_sig(simu.mesh)
@@ -392,12 +407,20 @@ def run_history(case, rec):
                     for t in g0.nodeTags:
                         rec.require(np.array_equal(np.sort(g0.Get_Nodes_Tag(t)), np.sort(g1.Get_Nodes_Tag(t))), "mesh_roundtrip_tags",
                                     f"nodes of tag {t} differ", **sig)
-            # stored iterations are never altered by what happened since
-            if snaps:
+            # stored iterations are never altered by what happened since: one of them is read back after every operation
+            # (audit = "each"), or all of them at the end only (audit = "end": the history then contains no read of its own making,
+            # so that what one read leaves behind for the next one is not wiped out by the harness)
+            if snaps and case.get("audit", "each") == "each":
                 j = (len(case["ops"]) + len(snaps)) % len(snaps)
                 r = simu.Get_results(j)
                 _equal_fields(rec, r, {k: v for k, v in snaps[j]["fields"].items() if k in r or kind != "thermal"}, "stored_unaltered",
                               f"{kind}: stored iteration {j} [{snaps[j]['where']}] changed after '{name}'", sig)
+        if case.get("audit", "each") == "end":
+            for j in range(len(snaps)):
+                r = simu.Get_results(j)
+                _equal_fields(rec, r, {k: v for k, v in snaps[j]["fields"].items() if k in r or kind != "thermal"}, "stored_unaltered",
+                              f"{kind}: stored iteration {j} [{snaps[j]['where']}] changed by the end of the history", sig)
+        rec.label("audit:" + case.get("audit", "each"))
         rec.nontrivial(nontrivial)
     finally:
         shutil.rmtree(root, ignore_errors=True)
